@@ -354,6 +354,9 @@ func Send(method, rawurl string, options ...SendOption) (*http.Response, error) 
 			if d == backoff.Stop {
 				break // Backoff timed out.
 			}
+			if !rewindBody(req) {
+				break // The body was consumed and cannot be sent again.
+			}
 			time.Sleep(d)
 			continue
 		}
@@ -472,6 +475,26 @@ func newRequest(method string, opts *sendOptions) (*http.Request, error) {
 		req.Header.Set(key, val)
 	}
 	return req, nil
+}
+
+// rewindBody prepares req for another attempt: the previous attempt may have
+// consumed the body, so a fresh copy is obtained through GetBody (set by
+// http.NewRequest for *bytes.Reader, *bytes.Buffer and *strings.Reader bodies).
+// Returns false if req has a body which cannot be replayed, in which case the
+// request must not be retried.
+func rewindBody(req *http.Request) bool {
+	if req.Body == nil || req.Body == http.NoBody {
+		return true
+	}
+	if req.GetBody == nil {
+		return false
+	}
+	body, err := req.GetBody()
+	if err != nil {
+		return false
+	}
+	req.Body = body
+	return true
 }
 
 func fallbackToHTTP(
